@@ -25,7 +25,7 @@ RULE = ("(a) exhaustive: every rule-tree shape with <= N branches (N=4 quick, 5 
         "refinement / alternative, alternatives under refinements) x every assignment of branch conditions from "
         "{a>2, b>2, c>2, always-true} on the 8-object cube {1,3}^3, where every branch both fires and does not fire, chains of >= 2 alternatives "
         "in both declaration styles (nested `with` blocks / sibling `with` blocks); "
-        "(b) random thresholds and 3-7 random objects; (c) random trees in which one branch joins a second variable (l.src == x, 0-2 links per item) so that there is one row and one conclusion per link, with branches below it testing the link; branch conditions also include function predicates (with a defaulted parameter), or_ of a comparison and a predicate term, for_all over a second pool, and a nested an(...) with an or_ as the whole condition of a branch; conclusions may carry a nested query as a field value; (d) trees over (parent, flattened element) matches with refinement, its alternative and an alternative of the base; every tree is evaluated twice; a share of the trees is also built incrementally (evaluated, then extended by the root's alternatives in a later rule_mode(query) session, then evaluated three times). Non-trivial: at least two different conclusions are produced "
+        "(b) random thresholds and 3-7 random objects; (c) random trees in which one branch joins a second variable (l.src == x, 0-2 links per item) so that there is one row and one conclusion per link, with branches below it testing the link; branch conditions also include function predicates (with a defaulted parameter), or_ of a comparison and a predicate term, for_all over a second pool, and a nested an(...) with an or_ as the whole condition of a branch; conclusions may carry a nested query as a field value; (d) every ordered pair of branch-condition kinds on every 3-branch tree shape; (e) trees over (parent, flattened element) matches with refinement, its alternative and an alternative of the base; every tree is evaluated twice; a share of the trees is also built incrementally (evaluated, then extended by the root's alternatives in a later rule_mode(query) session, then evaluated three times). Non-trivial: at least two different conclusions are produced "
         "and at least one object gets none or an overridden one; distinct by (tree, data).")
 LEVEL_TEXT = ("Reference-model monitoring: the real rule tree (Add conclusions, refinement(), alternative() under "
               "rule_mode(query)) is evaluated and the inferred instances are compared, as a multiset of (conclusion tag, "
@@ -177,7 +177,10 @@ def count_all(max_nodes):
 def exhaustive_info(tier):
     n = SIZES[tier]
     return {"exhaustive": True, "bound": f"all {count_all(n)} rule trees with <= {n} branches (every shape x every condition "
-                                         f"assignment from 4 conditions) on the 8-object cube; random part sampled"}
+                                         f"assignment from 4 conditions) on the 8-object cube; every ordered pair of the 10 kinds of branch "
+                                         f"condition on each of the four 3-branch tree shapes (400 combinations, "
+                                         f"{1 if tier == 'quick' else 5} random instantiation(s) each; pairwise coverage, not exhaustive in the "
+                                         f"parameters); random part sampled"}
 
 
 def plan(tier, seed):
@@ -187,6 +190,7 @@ def plan(tier, seed):
     specs += [{"kind": "rand", "n": n, "sub": i} for i in range(nsh)]
     specs += [{"kind": "join", "n": n, "sub": i} for i in range(nsh)]
     specs += [{"kind": "flat", "n": n // 2, "sub": i} for i in range(nsh)]
+    specs += [{"kind": "condpairs", "reps": 1 if tier == "quick" else 5, "stride": nsh, "offset": i, "sub": 700 + i} for i in range(nsh)]
     return specs
 
 
@@ -194,7 +198,7 @@ def floors(tier):
     return {"distinct_nontrivial": 300, "re:ExceptIf(@.*)?\\.enter": 500, "re:Alternative(@.*)?\\.enter": 500,
             "cls:shape:ref_in_ref": 20, "cls:shape:ref_in_alt": 20, "cls:shape:alt_in_ref": 20, "cls:shape:alt_chain": 20,
             "cls:overridden": 200, "cls:alt_fired": 200, "cls:caching_off": 50, "cls:conclusions_spelled_positionally": 100, "cls:preceded_by_an_evaluation_in_which_user_code_raised": 60, "cls:earlier_rule_concluded_a_subclass_for_the_same_objects": 100, "cls:bare_call_as_branch_condition": 150, "cls:or_of_operands_with_different_variables": 100,
-            "cls:nested_query_as_whole_branch_condition": 60, "cls:function_predicate_in_branch_condition": 150, "cls:for_all_as_branch_condition": 100, "cls:conclusion_field_is_a_nested_query": 100, "cls:matches_are_parent_element_pairs": 300, "cls:parent_with_several_elements": 250, "cls:conclusion_value_is_a_domain_variable": 60,
+            "cls:nested_query_as_whole_branch_condition": 60, "cls:function_predicate_in_branch_condition": 150, "cls:for_all_as_branch_condition": 100, "condition_kind_pairs_instantiated": 1600, "cls:conclusion_field_is_a_nested_query": 100, "cls:matches_are_parent_element_pairs": 300, "cls:parent_with_several_elements": 250, "cls:conclusion_value_is_a_domain_variable": 60,
             "cls:style:sibling_alternatives": 200, "cls:join_in_tree": 300, "cls:tree_extended_after_it_was_evaluated": 150, "cls:join_item_with_two_links": 200, "cls:alternative_declared_before_refinement": 200, "re:cls:longest_alternative_chain=[3-9]": 50}
 
 
@@ -220,6 +224,58 @@ def _rand_cond(rng, depth=0):
     if k < 0.86:
         return ["fa", rng.randint(0, 3)]
     return [rng.choice("abc"), rng.randint(0, 3)]
+
+
+COND_KINDS = ["cmp2", "and2", "bare", "nbare", "pred", "or2", "exq", "fall", "fa", "simple"]
+
+
+def _cond_of_kind(rng, kind):
+    """a branch condition of the given kind (for the pairwise enumeration of condition kinds over the small tree shapes)"""
+    simple = lambda: [rng.choice("abc"), rng.randint(0, 3)]
+    pred = lambda: ["pred", rng.choice("abc"), rng.choice([None, 1, 3])]
+    if kind == "cmp2":
+        a1, a2 = rng.sample("abc", 2)
+        return ["cmp2", a1, a2]
+    if kind == "and2":
+        return ["and2", _cond_of_kind(rng, rng.choice(["cmp2", "bare", "pred", "fall", "simple"])),
+                _cond_of_kind(rng, rng.choice(["cmp2", "nbare", "pred", "simple"]))]
+    if kind in ("bare", "nbare"):
+        return [kind, rng.choice(["big", "hi"])]
+    if kind == "pred":
+        return pred()
+    if kind == "or2":
+        return ["or2"] + rng.choice([[simple(), pred()], [pred(), simple()], [pred(), pred()], [simple(), ["bare", "big"]]])
+    if kind == "exq":
+        return ["exq", rng.choice("abc")]
+    if kind == "fall":
+        return ["fall", rng.choice("abc")]
+    if kind == "fa":
+        return ["fa", rng.randint(0, 3)]
+    return simple()
+
+
+def gen_pair_case(rng, k_base, k1, k2, shape_no):
+    """base of kind k_base with two further branches of kinds k1, k2 arranged as: 0 refinement + alternative of the base,
+    1 refinement with its own alternative, 2 chain of two alternatives, 3 refinement inside a refinement"""
+    leaf = (None, None)
+    shape = [(leaf, leaf), ((None, leaf), None), (None, (None, leaf)), ((leaf, None), None)][shape_no]
+    case = gen_case(rng)
+    tree = label(shape, [_cond_of_kind(rng, k_base), _cond_of_kind(rng, k1), _cond_of_kind(rng, k2)])
+
+    def no_alt_for_exq(node):
+        if node is None:
+            return
+        if node[0][0] == "exq" and node[3] is not None:
+            node[0] = ["a", 2]
+        no_alt_for_exq(node[2])
+        no_alt_for_exq(node[3])
+    no_alt_for_exq(tree)
+    case["tree"] = tree
+    case["pair"] = [k_base, k1, k2, shape_no]
+    if not case.get("concl_subq"):
+        case["pool"] = [[v, rng.randint(1, 4), rng.random() < 0.4] for v in rng.sample([1, 2, 3, 4], rng.randint(2, 4))]
+    case["incremental"] = False
+    return case
 
 
 def gen_case(rng):
@@ -306,6 +362,16 @@ def gen_join_case(rng):
 
 
 def cases(spec, ctx):
+    if spec["kind"] == "condpairs":
+        # every ordered pair of branch-condition kinds on every 3-branch tree shape (base kind drawn at random)
+        combos = [(k1, k2, sh) for k1 in COND_KINDS for k2 in COND_KINDS for sh in range(4)]
+        for j, (k1, k2, sh) in enumerate(combos):
+            if j % spec["stride"] != spec["offset"]:
+                continue
+            for r in range(spec["reps"]):
+                rng = ctx.rng("cp", spec["sub"], j, r)
+                yield gen_pair_case(rng, rng.choice(["simple", "simple", "cmp2", "pred", "fall", "bare"]), k1, k2, sh)
+        return
     if spec["kind"] == "flat":
         for i in range(spec["n"]):
             yield gen_flat_case(ctx.rng("f", spec["sub"], i))
@@ -773,6 +839,8 @@ def check_case(case, ctx):
         ctx.cls("cls:earlier_rule_concluded_a_subclass_for_the_same_objects")
     if case.get("concl_subq") and not case.get("join"):
         ctx.cls("cls:conclusion_field_is_a_nested_query")
+    if case.get("pair"):
+        ctx.count("condition_kind_pairs_instantiated")
     for kind_, name_ in (("'or2'", "or_of_operands_with_different_variables"), ("'exq'", "nested_query_as_whole_branch_condition"),
                          ("'pred'", "function_predicate_in_branch_condition"), ("'fall'", "for_all_as_branch_condition")):
         if kind_ in repr(case["tree"]):
